@@ -27,6 +27,7 @@ var paramTokRe = regexp.MustCompile(`(^|[^A-Za-z0-9_#])p(\d+)\b`)
 func c16(c *core.Ctx) map[string]interface{} {
 	c.Explanation = "Static dependence/flow check of UE identity creation (C16). Decided: (R16.dep) the SUPI given to NewRanUeContext is \"imsi-\" followed by a zero-padded decimal of (IMSI + index) whose width is the configured IMSI's own digit count (so the digit count, and with it MCC/MNC, is kept while the MSIN does not overflow), hence depends on both the IMSI and the index; RAN-UE-NGAP-ID is (f(IMSI)+index) mod M with constant M >= 10000 (injective in the index for populations up to 10000); main passes the 0-based loop index as the index in both modes; (R16.ctx) NewRanUeContext stores its four arguments unmodified in Supi / RanUeNgapId / CipheringAlg / IntegrityAlg and nothing else in main/stgutg/tglib writes those fields; (R16.cred) K → PermanentKeyValue, OPc → OpcValue, OP → Milenage.Op.OpValue and CreateUE hands K, OPC, OP over in that order; (R16.cap) GetUESecurityCapability advertises exactly the algorithm the context holds: case n of the ciphering/integrity switch calls the setter of 5G-EAn/5G-IAn and each setter writes exactly bit (7-n) of octet 0 resp. 1 (TS 24.501 9.11.3.54), and the algorithms NASEncode uses are those same context fields (C06). (R16.pure) UE creation and the capability/credential getters use no package-level cache or skeleton (an IE handed out earlier cannot change, one UE's algorithm bits cannot leak into another's); (R18.load) the configuration values (K, OP, OPc, IMSI) are the ones parsed from the file, not rewritten after parsing. NOT decided: behaviour when IMSI+index overflows the MSIN digits (outside the property), numeric parsing of non-decimal IMSIs."
 	c.Assumptions = []string{"fmt.Sprintf(\"%0*d\", w, n) renders n in decimal left-padded with zeros to w digits", "strconv.Atoi parses the decimal IMSI (15 digits fit a 64-bit int)"}
+	r0swap(c)
 	r16dep(c)
 	r16ctx(c)
 	r16cred(c)
